@@ -119,9 +119,9 @@ def build(F):
         for role, h in (("read", _flag_read), ("set", _flag_set), ("clear", _flag_clear)):
             if role in A.flag_fn:
                 I.primitives[A.flag_fn[role]] = h
-        for p in A.alg_paths():
-            I.primitives[p] = None
-        I.roles = dict(A.role)
+        # the crate-private list helpers (ordered_*, get_locks*, duplicate checks, rollback helpers) are NOT summarised: they
+        # are inlined wherever a public operation reaches them, so their names, number and shapes are free to change
+        I.roles = {}
         return I
     m = {"make": make, "holdtypes": hold, "hold_detail": hold_detail, "dataproj": dp, "dataproj_detail": dp_detail}
     _cache[key] = m
